@@ -543,6 +543,52 @@ func resolve(st Step, h *heap) *cop {
 		}
 		avoidCycle(h.g[c.a])
 		c.form = "(append! " + gname(c.a) + renderArgs() + ")"
+	case "call":
+		needArg()
+		c.args = c.args[:1]
+		c.i, c.j = mod(st.I, 8), mod(st.J, 4)
+		if c.keyfn == 0 {
+			c.keyfn = 1 // arguments may be anything: always a total key function
+		}
+		k := kind(kSeq)
+		if c.i <= 2 {
+			k = kList
+		}
+		c.a = h.pick(k, st.A, st.Loose)
+		c.b = h.pick(kAny, st.B, true)
+		if !st.Loose && !k(h.g[c.a]) {
+			c.op = "list"
+			c.form = "(list" + renderArgs() + ")"
+			break
+		}
+		srt := func(v string) string {
+			return "(stable-sort " + predNames[c.pred] + " " + v + " " + keyFns[c.keyfn] + ")"
+		}
+		F := []string{
+			"(lambda (&rest xs) " + srt("xs") + ")",
+			"(lambda (h &rest xs) " + srt("xs") + ")",
+			"(lambda (&optional a b &rest xs) (list a b " + srt("xs") + "))",
+			"(lambda (x &optional y) (if (or (list? x) (vector? x)) " + srt("x") + " x))",
+		}[c.j]
+		A, B, V := gname(c.a), gname(c.b), renderArg(c.args[0], false)
+		switch c.i {
+		case 0:
+			c.form = "(apply " + F + " " + A + ")"
+		case 1:
+			c.form = "(apply " + F + " " + V + " " + A + ")"
+		case 2:
+			c.form = "(unpack " + F + " " + A + ")"
+		case 3:
+			c.form = "(funcall " + F + " " + A + ")"
+		case 4:
+			c.form = "(funcall " + F + " " + A + " " + V + " " + B + ")"
+		case 5:
+			c.form = "(map 'list " + F + " " + A + ")"
+		case 6:
+			c.form = "(thread-last " + A + " (funcall " + F + "))"
+		default:
+			c.form = "(foldl (lambda (acc x) (append! acc x)) (vector) " + A + ")"
+		}
 	case "stable-sort":
 		c.a = h.pick(kSeq, st.A, st.Loose)
 		if s, ok := asSeq(h.g[c.a]); ok && c.keyfn == 0 && anyNonInt(s.cells()) {
@@ -627,7 +673,7 @@ type hyp struct {
 
 const maxHyps = 48
 
-var mutatingOps = map[string]bool{"assoc!": true, "dissoc!": true, "append!": true, "append-bytes!": true, "stable-sort": true}
+var mutatingOps = map[string]bool{"call": true, "assoc!": true, "dissoc!": true, "append!": true, "append-bytes!": true, "stable-sort": true}
 var appendOps = map[string]bool{"append": true, "append-bytes": true}
 
 // expand applies c to h under every combination of open choices.
